@@ -83,6 +83,7 @@ type ClientPlan struct {
 	Headers     [][2]string `json:"headers,omitempty"`
 	Msgs        []MsgSpec   `json:"msgs,omitempty"`
 	ShortCT     bool        `json:"short_ct,omitempty"`
+	Spelling    int         `json:"spelling,omitempty"` // legal spelling variants: 1 = JSON content type with "; charset=utf-8" (Connect unary POST, REST); 2 = accepted compressions joined by ", "; 4 = one header line per accepted compression
 	// REST / raw
 	HTTPMethod  string      `json:"http_method,omitempty"`
 	Path        string      `json:"path,omitempty"`
